@@ -31,15 +31,21 @@ META = dict(
 NAMES = [b"cat", b"job (retry) 2", b") (", b"a\nb c) S 1 2 3"]
 
 
-@harness("C02.identity", quick=[dict(K=2, with_clock=True), dict(K=3, with_clock=False), dict(K=3, with_clock=True), dict(K=2, with_clock=False, names=True)],
-         thorough=[dict(K=4, with_clock=True), dict(K=5, with_clock=False), dict(K=5, with_clock=True), dict(K=3, with_clock=True, names=True), dict(K=4, with_clock=False, names=True)])
-def identity(ctx, K, with_clock, names=False):
+@harness("C02.identity", quick=[dict(K=2, with_clock=True), dict(K=3, with_clock=False), dict(K=3, with_clock=True), dict(K=2, with_clock=False, names=True), dict(K=3, with_clock=False, popen=True)]
+         + [dict(K=3, with_clock=False, ticks=t) for t in ([57, 58], [1000004, 1000005], [51204, 51205])],
+         thorough=[dict(K=4, with_clock=True), dict(K=5, with_clock=False), dict(K=5, with_clock=True), dict(K=3, with_clock=True, names=True), dict(K=4, with_clock=False, names=True), dict(K=4, with_clock=True, popen=True)]
+         + [dict(K=4, with_clock=True, ticks=t) for t in ([57, 58], [113, 114, 115], [1000004, 1000005, 1000006], [51204, 51205])])
+def identity(ctx, K, with_clock, names=False, popen=False, ticks=None):
     """names: every incarnation carries a process name chosen from NAMES (parentheses, blanks, a newline, text that looks like the
-    rest of a stat record) and may rename itself (event `rename`): the identity must not depend on the name"""
+    rest of a stat record) and may rename itself (event `rename`): the identity must not depend on the name.
+    popen: the first object is a psutil.Popen (a Process subclass wrapping a subprocess.Popen stand-in whose returncode stays None:
+    the child is reaped by somebody else -- os.waitpid() elsewhere, a SIGCHLD handler).
+    ticks: concrete start ticks of successive incarnations instead of symbolic ones, so that the real float arithmetic of the code
+    runs on them (adjacent tick values whose float images are close): a sampled witness, outside the for-all claim."""
     k = simk.Kernel(ctx)
     simk.system_files(k)
     bt = [ctx.int("btime0", 10**9, 2 * 10**9)]
-    inc = [ctx.int("start0", 0, 10**7)]          # start ticks of successive incarnations of PID 77
+    inc = [ticks[0] if ticks else ctx.int("start0", 0, 10**7)]          # start ticks of successive incarnations of PID 77
     state = {"listed": True, "zombie": False, "inc": 0, "comm": ctx.choice("name0", NAMES) if names else b"cat"}
     simk.full_process(k, 1, ppid=0, comm="init")
     simk.full_process(k, PID)
@@ -60,8 +66,20 @@ def identity(ctx, K, with_clock, names=False):
     log = []
     import contextlib
 
-    with k.installed(), contextlib.ExitStack() as stack:
-        objs.append((psutil.Process(PID), 0))
+    class _Sub:                      # stands in for subprocess.Popen: the child is never reaped through this object
+        pid, returncode, stdin, stdout, stderr = PID, None, None, None, None
+
+        def __init__(self, *a, **kw):
+            pass
+
+        def poll(self):
+            return None
+
+    class _Subprocess:
+        Popen = _Sub
+
+    with k.installed(extra=[(psutil, "subprocess", _Subprocess)] if popen else []), contextlib.ExitStack() as stack:
+        objs.append((psutil.Popen(["child"]) if popen else psutil.Process(PID), 0))
         if ctx.flag("first_object_inside_oneshot_block"):      # the history runs inside `with objs[0].oneshot():`
             stack.enter_context(objs[0][0].oneshot())
             log.append("with obj0.oneshot():")
@@ -76,9 +94,14 @@ def identity(ctx, K, with_clock, names=False):
                 if state["listed"]:
                     state["zombie"] = True
             elif ev == "reuse":
-                n = ctx.int(f"start{len(inc)}", 0, 10**7)
-                for old in inc:
-                    ctx.assume(ctx.neg(ctx.eq(n, old)))
+                if ticks:
+                    if len(inc) >= len(ticks):
+                        continue
+                    n = ticks[len(inc)]
+                else:
+                    n = ctx.int(f"start{len(inc)}", 0, 10**7)
+                    for old in inc:
+                        ctx.assume(ctx.neg(ctx.eq(n, old)))
                 inc.append(n)
                 state.update(inc=len(inc) - 1, listed=True, zombie=False)
                 if names:
